@@ -4,3 +4,10 @@ import ChessVerif.Props.C06
 #print axioms ChessVerif.Props.C06.go_null_only_if_final_partial
 #print axioms ChessVerif.Props.C06.go_reusable
 #print axioms ChessVerif.Props.C06.go_again_restores
+#print axioms ChessVerif.Props.C06.eval_range
+#print axioms ChessVerif.Props.C06.alphaBeta_value_in_range
+#print axioms ChessVerif.Props.C06.quiescence_value_in_range
+#print axioms ChessVerif.Props.C06.go_keeps_table_invariant
+#print axioms ChessVerif.Props.C06.go_null_only_if_final
+#print axioms ChessVerif.Props.C06.go_final_score
+#print axioms ChessVerif.Props.C06.go_final_score_completed
